@@ -34,6 +34,14 @@ func RoundedCone(a, b vector3.Float64, r1, r2 float64) sample.Vec3ToFloat {
 	rrr := rr * rr
 	signRRR := sign(rr) * rrr
 	a2 := l2 - rrr
+	if a2 <= 0 {
+		// one end sphere contains the other: the swept shape is that sphere (the cone formula
+		// below needs |b-a| > |r1-r2|, otherwise it is discontinuous or NaN)
+		if rr > 0 {
+			return Sphere(a, r1)
+		}
+		return Sphere(b, r2)
+	}
 	il2 := 1.0 / l2
 
 	return func(v vector3.Float64) float64 {
